@@ -6,7 +6,7 @@ V = "/verif"
 out = []
 out.append("### 9.1 Independently seeded breaking changes\n")
 out.append("Each change below was written by a fresh sub-agent that was given ONLY the text of one property and its own scratch\n"
-           "worktree of /repo (prompt: `seeded/PROMPT.txt`), never anything from /verif. A change is kept only after I confirmed, in a\n"
+           "worktree of /repo (prompt: `seeded/PROMPT.txt`), never anything from /verif (from round e on also the one-line summaries of the changes already written for that property, so that the new one is at a different site; round f additionally asked for violations that depend on a history or a combination: `bin/seedprompts.py`). A change is kept only after I confirmed, in a\n"
            "scratch worktree, that it compiles, that the ENTIRE existing test suite still passes with it, and that its demonstration\n"
            "(`seeded/<id>/demo.rs`) fails with it and passes without it (`bin/seedverify.sh`). The checks were then run against a fresh\n"
            "worktree of /repo's HEAD with the patch applied (`bin/seedcheck.sh`; /repo itself is never touched) - the `quick` tier only.\n"
